@@ -513,7 +513,9 @@ func oracle(c Case, o *h.Obs) *h.Fail {
 	}
 	o.NonTrivial = countProbes(c.Prog) >= 3 && special
 	if !v.OK {
-		return h.Failf("C07|"+v.Clause, "program:\n%s\n%s", v.Src, v.Detail)
+		f := h.Failf("C07|"+v.Clause, "program:\n%s\n%s", v.Src, v.Detail)
+		f.NoShrink = v.Clause == "no-termination"
+		return f
 	}
 	return nil
 }
